@@ -34,5 +34,6 @@ def run(col, configs, tier):
         guarded(col, X.rule_binary_factor, facts)
         guarded(col, X.rule_mixed_base_scaling, facts)
         guarded(col, X.rule_reparse_skips_zeros, facts)
+        guarded(col, X.rule_compare_equal_exhausted, facts)
         guarded(col, X.rule_bigfloat_bits, facts)
         guarded(col, X.rule_error_accounting, facts)
